@@ -344,8 +344,12 @@ package tree
 //@ fn Tree.Routes
 //@   requires treeOK(tree) && allSafe() && lockFree(tree)
 //
+//@ pred ofTree(ns []*node, t *Tree) = forall k int :: 0 <= k && k < len(ns) ==> ns[k] != nil && allocated(ns[k]) && ns[k].root == t
 //@ fn Tree.URL
 //@   requires treeOK(tree) && allSafe() && lockFree(tree) && buf != nil
+//@   inv 1 [C06,C05] walk: curr != nil && allocated(curr) && curr.root == tree && ofTree(nodes, tree)
+//@   inv 2 [C05] swap: 0 <= i && j < len(nodes) && i + j == len(nodes) - 1 && ofTree(nodes, tree)
+//@   inv 3 [C05] bound: -1 <= rangeindex && rangeindex < len(nodes) && ofTree(nodes, tree)
 //
 //@ fn node.routes
 //@   requires [C06] lock: heldR(n)
